@@ -27,8 +27,38 @@ def crashed : List Action → Bool
 def segsOf (t : String) : Option (List Bytes) :=
   (t.splitOn ",").mapM (fun h => runP bytesTok h)
 
+def connOf (t : String) : Option ConnSpec :=
+  match t.splitOn "/" with
+  | [segs, f] =>
+    let ss : Option (List Bytes) := if segs == "-" then some [] else segsOf segs
+    let fa : Option (Option Nat) := if f == "-" then some none else (f.toNat?).map some
+    match ss, fa with
+    | some ss, some fa => some { segs := ss, failAt := fa }
+    | _, _ => none
+  | _ => none
+
+def unAct : List Action' → Option (List Action)
+  | [] => some []
+  | .act a :: rest => (unAct rest).map (a :: ·)
+  | .stale :: _ => none
+
+def showConn (out : List Action') : String :=
+  match unAct out with
+  | none => "stale"
+  | some acts =>
+    let rs := replies ExSt.init acts
+    s!"n={rs.length} [{" ; ".intercalate (rs.map showReply)}] end={if crashed acts then "crash" else "eof"}"
+
 def step (line : String) : String :=
   match tokens line with
+  | ["P", mp, bt, hl, rs, mb, ps, conns] =>
+    match mp.toNat?, bt.toNat?, hl.toNat?, rs.toNat?, mb.toNat?, ps.toNat?, (conns.splitOn ";").mapM connOf with
+    | some mp, some bt, some hl, some rs, some mb, some ps, some specs =>
+      let cfg : Config := { minPipeline := mp, batchThreshold := bt, headerLen := hl, readSize := rs,
+                            maxBuffer := mb, checked := true, codec := codec1, env := C15.envD }
+      let srv := serve cfg (Pool.init ps true) specs (seqEvents specs.length)
+      " | ".intercalate (srv.outs.map (fun o => showConn o.2))
+    | _, _, _, _, _, _, _ => "bad-op"
   | ["C", mp, bt, hl, rs, mb, segs] =>
     match mp.toNat?, bt.toNat?, hl.toNat?, rs.toNat?, mb.toNat?, segsOf segs with
     | some mp, some bt, some hl, some rs, some mb, some ss =>
